@@ -58,8 +58,15 @@ class FileSystemArtifactStore(SerializedArtifactStore):
         serializer = serializer_factory.from_data_format(fmt)
         mode, encoding = ('wb', None) if serializer.is_binary else ('w', 'utf-8')
 
-        with Path(self._ensure_dir() / f'{node_id}.{fmt.value}').open(mode, encoding=encoding) as file:  # noqa: ASYNC101
-            serializer.dump(data, file)
+        path = Path(self._ensure_dir() / f'{node_id}.{fmt.value}')
+
+        try:
+            with path.open(mode, encoding=encoding) as file:  # noqa: ASYNC101
+                serializer.dump(data, file)
+        except BaseException:
+            # A failed save must not leave a file behind, otherwise the key looks saved
+            path.unlink(missing_ok=True)
+            raise
 
     @dont_use_for_prod
     async def load(self, node_id: NodeId) -> NodeResultT:
